@@ -121,7 +121,7 @@ pub mod flexi_logger {
     broadcast use group_level_axioms, group_pat_seq, group_strmap, vstd::std_specs::hash::group_hash_axioms;
 
     //@ item src/flexi_logger.rs struct FlexiLogger
-    //@   rule R2 1
+    //@   rule R2 *
 
     impl FlexiLogger {
         pub closed spec fn active(&self) -> LogSpecification { *lock_content(&*self.log_specification) }
